@@ -23,6 +23,12 @@ operations issued from inside the sessions handler (`self` = the id being handed
   saddpush ids=N,self,N route=R data=HEX  AddSession; OnSessionAdd calls ClientSessions.PushMsg
   saddbcast ch=C route=R msg=M            AddSession; OnSessionAdd joins (C, local front, self) and broadcasts on C
   sdelpush id=N ids=.. route=R data=HEX   RemoveSession; OnSessionRemove calls ClientSessions.PushMsg
+a membership operation arriving from another goroutine while a broadcast is in flight:
+  bcastrace ch=C route=R msg=M front=F act=leave|join id=N
+      broadcast on C; when the push layer is handed the tuple for front F (before it reads the id
+      list) another goroutine issues leave/join (C, F, N).  The group lock is held across the push
+      call, so that operation takes effect only after the tuple was consumed: the model is
+      "broadcast (on the snapshot), then the operation".
 The model of these is the composition "registration first, then the callback's operations" /
 "removal first, then the callback's operations", which is what `AddSession` / `RemoveSession` do.
 -/
@@ -84,6 +90,7 @@ inductive Cmd
   | saddPush (ids : List (Option Nat)) (route : String) (data : List Nat)
   | saddBcast (c route msg : String)
   | sdelPush (id : Nat) (ids : List Nat) (route : String) (data : List Nat)
+  | bcastRace (c route msg : String) (then : Op)
   | bad
 
 /-- id list in which `self` stands for the id being handed out -/
@@ -131,6 +138,13 @@ def parseCmd (line : String) : Cmd :=
     match kv ws "ch", kv ws "route", kv ws "msg" with
     | some c, some r, some m => .op (.bcast c r m)
     | _, _, _ => .bad
+  | some "bcastrace" =>
+    match kv ws "ch", kv ws "route", kv ws "msg", kv ws "front", kv ws "act", (kv ws "id").bind parseU32 with
+    | some c, some r, some m, some f, some act, some x =>
+      if act == "leave" then .bcastRace c r m (.leave c f x)
+      else if act == "join" then .bcastRace c r m (.join c f x)
+      else .bad
+    | _, _, _, _, _, _ => .bad
   | some "alloctemp" => match kv ws "slot" with | some k => .alloc k | none => .bad
   | some "freetemp" => match kv ws "slot" with | some k => .free k | none => .bad
   | some "sadd" => .op .sadd
@@ -202,6 +216,11 @@ def stepLine (d : DSt) (line : String) : DSt × String :=
       let r2 := step ser r1.1 (.spush ids route data)
       ({ d with st := r2.1 }, showObs r1.2 ++ " " ++ showObs r2.2)
     | _ => ({ d with st := r1.1 }, showObs r1.2 ++ " dl=")
+  | .bcastRace c route msg o =>
+    -- the push consumes the snapshot; the concurrent operation takes effect afterwards
+    let r1 := step ser d.st (.bcast c route msg)
+    let r2 := step ser r1.1 o
+    ({ d with st := r2.1 }, showObs r1.2)
   | .bad => (d, "bad-op")
 
 /-! ### the property predicate on implementation observations -/
@@ -347,6 +366,10 @@ def specStep (s : Spec) (line : String) : Spec × String :=
     | .op (.join c f x) => out (s.apply (.join c f x)) (checkUid s c obs true)
     | .op (.leave c f x) => out (s.apply (.leave c f x)) (expectOk "leave-failed")
     | .op (.bcast c route msg) => out s (checkBcast s c route msg obs)
+    | .bcastRace c route msg o =>
+      -- every front must receive the membership as it was when the broadcast was issued
+      out (s.apply o) ((checkBcast s c route msg obs).map fun why =>
+        why ++ " (the id list was read while a concurrent leave/join of the same front was pending)")
     | .op .sadd =>
       match (kv (words obs) "id").bind parseU32, (kv (words obs) "live").bind parseIds with
       | some id, some live =>
